@@ -11,13 +11,13 @@ from vf import frames
 
 NUM = ["x", "z", "center(x)", "scale(z)", "standardize(x)", "bs(x, df=4)", "bs(z, df=5, degree=2, intercept=True)",
        "poly(x, 3)", "poly(z, 2, raw=True)", "np.log(p)", "I(x + z)", "{x * 2}", "scale(np.log(p))", "center(scale(z))",
-       "I(center(x) ** 2)", "ustat(z)", "np.abs(z)", "scale(x)", "I(scale(x) + z)", "np.add(center(z), x)"]
+       "I(center(x) ** 2)", "ustat(z)", "np.abs(z)", "scale(x)", "I(scale(x) + z)", "np.add(center(z), x)", "bq"]
 NUM_POINTWISE = ["x", "z", "np.log(p)", "I(x + z)", "{x * 2}", "np.abs(z)", "I(x ** 2)"]
 CAT = ["f", "g", "h", "u", "v", "C(k)", "C(k, levels=lv)", "C(h)", "T(g, 'g1')", "S(g)", "S(f, 'a')", "C(g, Treatment('g3'))", "C(u, Sum)",
-       "T(h)", "C(f, Sum('b'))"]
+       "T(h)", "C(f, Sum('b'))", "C(bq)"]
 CAT_PLAIN = ["f", "g", "h", "u", "C(k)"]
 GRP = ["g", "f", "h", "C(k)", "g:f", "u", "u:h", "v"]
-COLS = ("x", "z", "p", "f", "g", "h", "u", "k", "y", "s", "n", "v")
+COLS = ("x", "z", "p", "f", "g", "h", "u", "k", "y", "s", "n", "v", "bq")
 _NAME = re.compile(r"\b(" + "|".join(COLS) + r")\b")
 
 
@@ -61,7 +61,7 @@ def namespace_for(frame):
 
 
 def frame_strategy(min_rows=8, max_rows=36, num_styles=("general", "general", "offset", "intdtype", "symmetric"), **kw):
-    return frames.random_frame(cat_vars=("f", "g", "h", "u"), num_vars=("x", "z"), int_vars=("k",), pos_vars=("p",), intcat_vars=("v",),
+    return frames.random_frame(cat_vars=("f", "g", "h", "u"), num_vars=("x", "z"), int_vars=("k",), pos_vars=("p",), intcat_vars=("v",), bool_vars=("bq",),
                                min_rows=min_rows, max_rows=max_rows, max_levels=4, num_styles=num_styles, **kw)
 
 
